@@ -33,6 +33,7 @@ type Claims struct {
 	MinObligations  int      `json:"min_obligations"`
 	SafetyOff       []string `json:"safety_off"` // functions verified without O4 safety obligations
 	MaxInline       int      `json:"max_inline"`
+	Required        []string `json:"required"` // functions that carry the property-level postconditions: must exist and verify
 }
 
 type KnownFinding struct {
@@ -98,10 +99,18 @@ func CheckMain(args []string) int {
 	}
 	prop, tier := args[0], args[1]
 	repo := "/repo"
+	outDir := VerifDir
 	for i := 2; i+1 < len(args); i++ {
 		if args[i] == "-repo" {
 			repo = args[i+1]
 		}
+		if args[i] == "-out" {
+			outDir = args[i+1]
+		}
+	}
+	if repo != "/repo" && outDir == VerifDir {
+		// a scratch tree (mutant, self-test): never touch the registered evidence and replay files
+		outDir = filepath.Join(Scratch(), "out")
 	}
 	defer CleanupScratch()
 	t0 := time.Now()
@@ -117,7 +126,7 @@ func CheckMain(args []string) int {
 	var known []KnownFinding
 	readJSON(filepath.Join(VerifDir, "known_findings.json"), &known)
 
-	replayDir := filepath.Join(VerifDir, "replays", prop)
+	replayDir := filepath.Join(outDir, "replays", prop)
 	os.RemoveAll(replayDir)
 
 	type viol struct {
@@ -146,6 +155,7 @@ func CheckMain(args []string) int {
 	w, err := Load(repo, cl.Packages...)
 	var results []*FuncResult
 	var structural []StructResult
+	var staleNotes []string
 	if err != nil {
 		report(&ReplayFile{Obligation: prop + "#load", Kind: "load", Verdict: "undecided", Note: "the tree does not load/type-check: " + err.Error()})
 	} else {
@@ -158,8 +168,32 @@ func CheckMain(args []string) int {
 		for _, f := range cl.SafetyOff {
 			safetyOff[f] = true
 		}
-		for _, k := range cl.Functions {
-			results = append(results, VerifyFunc(w, k, VerifyOpts{Safety: !safetyOff[k], MaxInl: cl.MaxInline}))
+		required := map[string]bool{}
+		for _, f := range cl.Required {
+			required[f] = true
+		}
+		// Helper functions (claimed but not required) may disappear or change shape in a refactoring. A
+		// helper that no longer exists, or whose contract no longer evaluates against the code, loses its
+		// contract: its callers then execute its body (inlining) and the property-level obligations of
+		// the required functions must still be discharged. Nothing is assumed in its place.
+		for round := 0; round < 4; round++ {
+			results = results[:0]
+			stale := false
+			for _, k := range cl.Functions {
+				r := VerifyFunc(w, k, VerifyOpts{Safety: !safetyOff[k], MaxInl: cl.MaxInline})
+				if r.Err != "" && !required[k] && len(cl.Required) > 0 {
+					if _, had := w.Contracts[k]; had {
+						delete(w.Contracts, k)
+						stale = true
+					}
+					staleNotes = append(staleNotes, fmt.Sprintf("helper %s: %s -- contract dropped, callers execute the body", k, firstLine(r.Err)))
+					continue
+				}
+				results = append(results, r)
+			}
+			if !stale {
+				break
+			}
 		}
 		for _, ln := range cl.Lemmas {
 			found := false
@@ -347,12 +381,13 @@ func CheckMain(args []string) int {
 			"bounded":                  cl.Bounded,
 			"not_decided_clauses":      cl.NotDecided,
 			"engine_notes":             dedup(notes),
+			"stale_helper_contracts":   dedup(staleNotes),
 			"samples":                  samples,
 			"known_findings":           knownLines,
 			"contract_files":           relFiles(w, repo),
 		},
 	}
-	if err := writeJSON(filepath.Join(VerifDir, "evidence", prop+".json"), ev); err != nil {
+	if err := writeJSON(filepath.Join(outDir, "evidence", prop+".json"), ev); err != nil {
 		fmt.Println("cannot write evidence:", err)
 		return 2
 	}
@@ -405,6 +440,13 @@ func dedup(xs []string) []string {
 		}
 	}
 	return out
+}
+
+func firstLine(s string) string {
+	if i := strings.IndexByte(s, '\n'); i >= 0 {
+		return s[:i]
+	}
+	return s
 }
 
 func round(f float64) float64 { return float64(int(f*1000+0.5)) / 1000 }
